@@ -2,6 +2,7 @@
 # full regression of the checker: unchanged tree, seeded changes, self-validation variants, benign variants
 cd "$(dirname "$0")/.."
 echo "--- unchanged tree"; ./check C01 quick >/dev/null; printf '%s\n' C01 C02 C03 C04 C05 C06 C07 C08 C09 C10 C11 C12 C13 C14 C15 C16 C17 C18 | xargs -P 6 -I{} sh -c './check {} quick | grep -E "VIOLATION|instances"' | sort
+echo "--- unchanged tree, thorough"; printf '%s\n' C01 C02 C03 C04 C05 C06 C07 C08 C09 C10 C11 C12 C13 C14 C15 C16 C17 C18 | xargs -P 6 -I{} sh -c './check {} thorough | grep -E "VIOLATION|WEAKNESS|instances"' | sort | grep -v " 0 violations"
 echo "--- seeded"; ./tools/run_seeds.sh | grep -v ": reported by"
 echo "--- variants"; for i in 0 1 2 3 4 5; do python3 tools/run_all_mutants.py --shard=$i/6 > /tmp/regress.mut.$i 2>&1 & done; wait; cat /tmp/regress.mut.? | grep -v " killed "; echo "($(cat /tmp/regress.mut.? | grep -c " killed ") killed)"; rm -f /tmp/regress.mut.?
 echo "--- benign"; ./tools/run_benign.sh 2>&1 | grep -v "^=="
